@@ -30,14 +30,24 @@ __CPROVER_ensures(!__ERROR_buffer_errors ==> ERROR_with_lines == __CPROVER_old(E
 void ERRORreport(enum ErrorCode errnum, ...)
 __CPROVER_requires((int)errnum >= 0 && (int)errnum < NERR)
 __CPROVER_requires(HEAP_WF && EXPRESSfail == NULL)
-__CPROVER_assigns(ERRORoccurred, g_exited, g_exit_status, g_fmt_calls, g_fmt_last, g_va_first, g_va_second,
-                  g_file_printed, g_line_printed, g_prefix_errnum,
+__CPROVER_assigns(ERRORoccurred, g_exited, g_exit_status,
                   ERROR_with_lines, ERROR_string, __CPROVER_object_whole(heap))
 __CPROVER_ensures(((int)errnum != SUBORDINATE_FAILED && !LibErrors[errnum].override && IS_ERRCLASS(errnum))
                   ==> ERRORoccurred)
 __CPROVER_ensures(!((int)errnum != SUBORDINATE_FAILED && !LibErrors[errnum].override && IS_ERRCLASS(errnum))
                   ==> ERRORoccurred == __CPROVER_old(ERRORoccurred))
 __CPROVER_ensures(LibErrors[errnum].severity < SEVERITY_EXIT || LibErrors[errnum].override || (int)errnum == SUBORDINATE_FAILED)
+;
+
+
+/* C20: the "all warnings" switch changes only whether warning-class entries are printed */
+void ERRORset_all_warnings(bool warn_only)
+__CPROVER_requires(gk < (unsigned)NERR)
+__CPROVER_assigns(__CPROVER_object_whole(LibErrors))
+__CPROVER_ensures(LibErrors[gk].severity == __CPROVER_old(LibErrors[gk].severity))
+__CPROVER_ensures(LibErrors[gk].message == __CPROVER_old(LibErrors[gk].message))
+__CPROVER_ensures(LibErrors[gk].name == __CPROVER_old(LibErrors[gk].name))
+__CPROVER_ensures(LibErrors[gk].override == (LibErrors[gk].severity <= SEVERITY_WARNING ? warn_only : __CPROVER_old(LibErrors[gk].override)))
 ;
 #endif
 
@@ -68,4 +78,17 @@ void h_ERRORreport(void)
     __CPROVER_assert(!counts || ERRORoccurred, "C04.E1 enabled diagnostic of severity>=ERROR sets the verdict flag");
     __CPROVER_assert(counts || ERRORoccurred == in_occurred, "C04.E1 warnings, disabled and subordinate diagnostics leave the verdict flag alone");
     __CPROVER_assert(!(counts && LibErrors[in_errnum].severity >= SEVERITY_EXIT), "C04.E1 fatal diagnostics do not return");
+}
+
+
+void h_set_all_warnings(void)
+{
+    bool w;
+    ERRORset_all_warnings(w);
+}
+
+/* C06: the real body of ERROR_flush_message_buffer against the contract used at its call sites */
+void h_flush(void)
+{
+    ERROR_flush_message_buffer();
 }
